@@ -136,6 +136,10 @@ func remoteReadAt(client *http.Client, url string, p []byte, off int64) (n int, 
 	{
 		n, err := io.ReadFull(resp.Body, p)
 		if err != nil {
+			if err == io.EOF {
+				// an empty body is a failed transfer, not the end of the remote file
+				err = io.ErrUnexpectedEOF
+			}
 			return 0, err
 		}
 		return n, nil
